@@ -812,6 +812,39 @@ impl SessCc {
                 }
             }
         }
+        // C02, end of the history: a tracked term inserted once more (literally, or with its free slots
+        // rotated and its binders renamed) is an inserted term equal to the tracked one: the new handle has
+        // to compare equal to the (renamed) old one
+        if c02 && out.violations.is_empty() && out.discarded.is_none() && !s.tracked.is_empty() {
+            let r = catch_op(|| {
+                let nt = s.tracked.len();
+                for _ in 0..nt.min(4) {
+                    let i = orng.below(nt);
+                    let tm = s.tracked[i].tm.clone();
+                    let free = tm.free_vec();
+                    let mut rho: BTreeMap<S, S> = free.iter().map(|x| (*x, *x)).collect();
+                    if free.len() >= 2 && orng.chance(1, 2) {
+                        for k in 0..free.len() {
+                            rho.insert(free[k], free[(k + 1) % free.len()]);
+                        }
+                    }
+                    let mut fr = 5000;
+                    // (rename gives every binder a new name)
+                    let inst = if rho.iter().any(|(a, b)| a != b) || orng.chance(1, 2) { tm.rename(&rho, &mut fr) } else { tm.clone() };
+                    let expected = s.handle_inst(i, &rho);
+                    let got = s.re_add(&inst);
+                    if !s.eg.eq(&expected, &got) {
+                        return Some(format!("{inst} inserted again gives {got:?}, which does not compare equal to the handle {expected:?} of the tracked term {tm} (renamed alike)"));
+                    }
+                }
+                None
+            });
+            match r {
+                Ok(Some(d)) => out.violations.push(mk_violation("C02", "reinserted_term_equal", d, nops)),
+                Ok(None) => out.bump("reinsertions_checked"),
+                Err(_) => out.discarded = Some("panic_in_query".into()),
+            }
+        }
         // fault accounting: what actually fired
         for (name, c) in seam::take_probes() {
             out.count(&format!("probe:{name}"), c);
